@@ -64,6 +64,12 @@ def validPathChar (c : Char) : Bool :=
 
 def validEncodedPath (s : Bytes) : Bool := s.all validPathChar
 
+/-- heimdall's `escapedPath` helper (`extract_url.go`): the received spelling, in which only the octets that are not
+allowed in a path are percent-encoded; every escape sequence of the client stays as written -/
+def escapeInvalid : Bytes → Bytes
+  | [] => []
+  | c :: t => if validPathChar c then c :: escapeInvalid t else pctEncode c ++ escapeInvalid t
+
 /-- `url.QueryUnescape`: like `PathUnescape`, and `+` is a space -/
 def queryUnescape : Bytes → Option Bytes
   | [] => some []
@@ -201,6 +207,9 @@ def hCookie : Bytes := b!"Cookie"
 def hUserAgent : Bytes := b!"User-Agent"
 def hAcceptEncoding : Bytes := b!"Accept-Encoding"
 def hRange : Bytes := b!"Range"
+def hConnection : Bytes := b!"Connection"
+def hTe : Bytes := b!"Te"
+def hUpgrade : Bytes := b!"Upgrade"
 
 /-- `untrustedHeader` of the trusted-proxy middleware -/
 def untrustedHeaders : List Bytes := [hForwarded, hXFFor, hXFProto, hXFHost, hXFUri, hXFPath, hXFMethod]
@@ -265,6 +274,8 @@ structure ClientReq where
   headers : Hdrs
   body    : Bytes
   peer    : Bytes
+  /-- the listener the request arrives on speaks TLS -/
+  tls     : Bool
 deriving Repr, DecidableEq
 
 structure Case where
@@ -338,18 +349,24 @@ deriving Repr, DecidableEq
 def extractMethod (inH : Hdrs) (s : ServerReq) : Bytes :=
   if get inH hXFMethod ≠ [] then get inH hXFMethod else s.method
 
-/-- `extractURL` (plain-text listener) -/
-def extractURL (inH : Hdrs) (s : ServerReq) : Url :=
-  let proto := if get inH hXFProto ≠ [] then get inH hXFProto else b!"http"
+/-- scheme of the listener -/
+def listenerProto (tls : Bool) : Bytes := if tls then b!"https" else b!"http"
+
+/-- heimdall's `escapedPath(uri)` for a URL parsed by Go: decoded path and the raw path Go kept -/
+def clientPath (path rawPath : Bytes) : Bytes :=
+  if rawPath = [] then ProxyFwd.escapedPath path [] else escapeInvalid rawPath
+
+/-- `extractURL` -/
+def extractURL (tls : Bool) (inH : Hdrs) (s : ServerReq) : Url :=
+  let proto := if get inH hXFProto ≠ [] then get inH hXFProto else listenerProto tls
   let host := if get inH hXFHost ≠ [] then get inH hXFHost else s.host
   let fwd := get inH hXFUri
   let parsed : Option (Bytes × Bytes) :=
     if fwd = [] then none else
-    (setPath (before '?' fwd)).map fun pr =>
-      (ProxyFwd.escapedPath pr.1 pr.2, encodeValues (parseQueryPairs (after '?' fwd)))
+    (setPath (before '?' fwd)).map fun pr => (clientPath pr.1 pr.2, after '?' fwd)
   let rawPath0 := (parsed.map (·.1)).getD []
   let query0 := (parsed.map (·.2)).getD []
-  let rawPath := if rawPath0 = [] then ProxyFwd.escapedPath s.path s.rawPath else rawPath0
+  let rawPath := if rawPath0 = [] then clientPath s.path s.rawPath else rawPath0
   let query := if query0 = [] then s.rawQuery else query0
   { scheme := proto, host := host, path := (pathUnescapeL rawPath).getD [], rawPath := rawPath, rawQuery := query }
 
@@ -413,14 +430,51 @@ def addCookie (h : Hdrs) (c : Bytes × Bytes) : Hdrs :=
   let s := c.1 ++ '=' :: c.2
   if get h hCookie ≠ [] then set hCookie (get h hCookie ++ b!"; " ++ s) h else set hCookie s h
 
-def forwardedElem (peer inHost : Bytes) : Bytes := b!"for=" ++ peer ++ b!";host=" ++ inHost ++ b!";proto=http"
+def forwardedElem (peer inHost proto : Bytes) : Bytes :=
+  b!"for=" ++ peer ++ b!";host=" ++ inHost ++ b!";proto=" ++ proto
+
+/-! ### what `httputil.ReverseProxy` does to the outgoing header before it calls `Rewrite` -/
+
+/-- `hopHeaders` of `net/http/httputil` -/
+def hopHeaders : List Bytes :=
+  [hConnection, b!"Proxy-Connection", b!"Keep-Alive", b!"Proxy-Authenticate", b!"Proxy-Authorization", hTe,
+   b!"Trailer", b!"Transfer-Encoding", hUpgrade]
+
+def isOWS (c : Char) : Bool := c = ' ' || c = '\t'
+
+/-- `textproto.TrimString` -/
+def trimOWS (s : Bytes) : Bytes := ((s.dropWhile isOWS).reverse.dropWhile isOWS).reverse
+
+/-- the comma separated elements of a header value -/
+def listElems (v : Bytes) : List Bytes := (splitOn ',' v).map trimOWS
+
+def lowerAll (s : Bytes) : Bytes := s.map lowerC
+
+/-- `httpguts.HeaderValuesContainsToken` -/
+def hasToken (vs : List Bytes) (tok : Bytes) : Bool := vs.any fun v => (listElems v).any fun e => lowerAll e = tok
+
+/-- header names listed in the client's `Connection` header(s), canonical -/
+def connectionNamed (h : Hdrs) : List Bytes :=
+  ((values h hConnection).flatMap listElems).filter (· ≠ []) |>.map canonicalKey
+
+/-- hop-by-hop for this request: the standard names and every name listed in `Connection` -/
+def isHop (h : Hdrs) (k : Bytes) : Bool := hopHeaders.contains k || (connectionNamed h).contains k
+
+/-- `Upgrade` is kept (with `Connection: Upgrade`) when the client asked for a protocol switch -/
+def upgradeType (h : Hdrs) : Bytes := if hasToken (values h hConnection) b!"upgrade" then get h hUpgrade else []
+
+/-- the outgoing header map `Rewrite` starts from: hop-by-hop headers removed (`removeHopByHopHeaders`), `Te: trailers`
+and a requested upgrade put back, the forwarding headers `httputil` itself would set removed -/
+def proxyOutHeaders (inH : Hdrs) : Hdrs :=
+  let h0 := inH.filter fun x => !isHop inH x.1
+  let h1 := if hasToken (values inH hTe) b!"trailers" then set hTe b!"trailers" h0 else h0
+  let h2 := if upgradeType inH ≠ [] then set hUpgrade (upgradeType inH) (set hConnection b!"Upgrade" h1) else h1
+  h2 |> del hForwarded |> del hXFFor |> del hXFHost |> del hXFProto
 
 /-- headers of the outgoing request and its `Host`: `inH` are the client's headers as heimdall sees them (after the
 trusted-proxy middleware) -/
-def rewriteHeaders (inH : Hdrs) (p : Pipe) (peer inHost fwdHost : Bytes) : Bytes × Hdrs :=
-  -- httputil.ReverseProxy removes these before calling Rewrite
-  let out0 := inH |> del hForwarded |> del hXFFor |> del hXFHost |> del hXFProto
-  let out1 := out0 |> del hXFMethod |> del hXFUri |> del hXFPath
+def rewriteHeaders (inH : Hdrs) (p : Pipe) (peer inHost fwdHost proto : Bytes) : Bytes × Hdrs :=
+  let out1 := proxyOutHeaders inH |> del hXFMethod |> del hXFUri |> del hXFPath
   let out2 := (pipeFirst p.headers).foldl (fun h kv => set kv.1 kv.2 h) out1
   let pHost := get (pipeFirst p.headers) hHost
   let host := if pHost ≠ [] then pHost else fwdHost
@@ -433,11 +487,11 @@ def rewriteHeaders (inH : Hdrs) (p : Pipe) (peer inHost fwdHost : Bytes) : Bytes
   let out5 :=
     if fFor ≠ [] || fProto ≠ [] || fHost ≠ [] then
       out4 |> set hXFFor (if fFor = [] then peer else fFor ++ b!", " ++ peer)
-           |> set hXFProto (if fProto = [] then b!"http" else fProto)
+           |> set hXFProto (if fProto = [] then proto else fProto)
            |> set hXFHost (if fHost = [] then inHost else fHost)
     else
       out4 |> set hForwarded
-        (if fwd = [] then forwardedElem peer inHost else fwd ++ b!", " ++ forwardedElem peer inHost)
+        (if fwd = [] then forwardedElem peer inHost proto else fwd ++ b!", " ++ forwardedElem peer inHost proto)
   (host, out5)
 
 /-- header names `(*http.Request).write` does not take from the header map -/
@@ -467,11 +521,11 @@ def forward (c : Case) : Outcome :=
   | some s =>
     let inH := trustStrip (isTrusted c.trusted c.req.peer) s.headers
     if get inH hXFUri ≠ [] && !modelledForwardedUri (get inH hXFUri) then .unmodelled else
-    match ruleTarget c.rule (extractURL inH s) with
+    match ruleTarget c.rule (extractURL c.req.tls inH s) with
     | none => .rejected 400
     | some t =>
       if t.scheme ≠ b!"http" && t.scheme ≠ b!"https" then .rejected 502 else
-      let hh := rewriteHeaders inH c.pipe c.req.peer s.host c.rule.host
+      let hh := rewriteHeaders inH c.pipe c.req.peer s.host c.rule.host (listenerProto c.req.tls)
       .forwarded (t.scheme = b!"https") t.host
         { method := extractMethod inH s, path := orSlash t.escapedPath, query := t.rawQuery, host := hh.1,
           headers := wireHeaders (extractMethod inH s) hh.2, body := c.req.body }
